@@ -101,6 +101,8 @@ inductive Op (α : Type) where
   | solveAdd (s : Solve α)
   | update
   | imageSolve
+  /-- `Optic.scale_system`; the flags say which radii / thicknesses are infinite (`np.isinf`) -/
+  | scale (s : α) (radiusInf : List Bool) (thickInf : List Bool)
 
 def modifyAt {β : Type} (l : List β) (k : Nat) (f : β → β) : List β :=
   l.mapIdx fun i x => if i = k then f x else x
@@ -240,6 +242,18 @@ def imageSolve (P : Presc α) : Presc α :=
   let n := P.surfs.length
   { P with surfs := modifyAt P.surfs (n - 1) fun s => { s with z := s.z - offset } }
 
+/-- `Optic.scale_system` (radii, thicknesses, EPD; surface apertures are not part of `Presc`) -/
+def scaleSystem (P : Presc α) (s : α) (radiusInf thickInf : List Bool) : Presc α :=
+  let n := P.surfs.length
+  let radii := P.surfs.map (·.radius)
+  let thick := (List.range (n - 1)).map fun k => thickness P k
+  let P := (List.range n).foldl (fun P k =>
+    let P := if radiusInf.getD k false then P else setRadius P (radii.getD k 0 * s) k
+    if k ≠ n - 1 ∧ !(thickInf.getD k false) then setThickness P (thick.getD k 0 * s) k else P) P
+  match P.apType with
+  | .EPD => { P with apValue := P.apValue * s }
+  | _ => P
+
 def guardIdx (P : Presc α) (k : Nat) (r : Presc α) : Except String (Presc α) :=
   if inRange P k then .ok r else .error "IndexError"
 
@@ -265,6 +279,7 @@ def step (P : Presc α) : Op α → Except String (Presc α)
   | .solveAdd s => .ok (let P' := applySolve P s; { P' with solves := P'.solves ++ [s] })
   | .update => .ok (update P)
   | .imageSolve => .ok (imageSolve P)
+  | .scale s ri ti => .ok (scaleSystem P s ri ti)
 
 /-- run a history; an op that raises leaves the state unchanged (the exception propagates to the
 caller, the lens is not modified) -/
